@@ -29,9 +29,11 @@ Section WithField.
   Theorem C03_allowed_forbidden_any_value : forall st c0 v,
     not_raise (h_allowed current x st (VList c0) field v) /\ not_raise (h_forbidden current x st (VList c0) field v).
   Proof. intros. split; [apply (allowed_total current x field files)|apply (forbidden_total current x field files)]. Qed.
-  Theorem C03_contains_any_value : forall st c v,
-    (hashable c = true /\ (is_iterable c = false \/ is_str c = true)) \/ (exists l, c = VList l /\ forallb hashable l = true) ->
-    not_raise (h_contains current x st c field v).
+  (* allowed values given as a mapping (read as its keys since 2752c56): unhashable members of the value are fine *)
+  Theorem C03_allowed_mapping_any_value : forall st d v, not_raise (h_allowed current x st (VDict d) field v).
+  Proof. exact (allowed_total_mapping current x field files). Qed.
+  (* any constraint (the hypothesis "hashable members" fell with the repair e210946) *)
+  Theorem C03_contains_any_value : forall st c v, not_raise (h_contains current x st c field v).
   Proof. exact (contains_total current x field files). Qed.
   Theorem C03_lengths_any_value : forall st z v,
     not_raise (h_maxlength current x st (VInt z) field v) /\ not_raise (h_minlength current x st (VInt z) field v).
